@@ -140,7 +140,7 @@ impl Node {
 //@ rule R8 re: `vx_assert\(child[12]\.ptr_eq\(&\*parent\.slow_get_child\(child_index[12]\)\)\);` => `` x*
 //@ rule R5p re: `let (parent|child1|child2)_pci_ = \w+\.parent_child_indices\(\);` => `` x3
 //@ rule R5p re: `let mut (parent|child1|child2)_pci = \w+_pci_\.borrow_mut\(\);` => `` x3
-//@ props: C11
+//@ props: C11 C14
 //@ contract:
 //@|     requires
 //@|         // both edges are recorded symmetrically before the swap (distinct children: duplicates share one RefCell, dropped by R5p)
